@@ -34,6 +34,8 @@ OUT = os.environ.get('VERIF_OUT', VERIF)   # where evidence/ and replay/ are wri
 ENV = dict(os.environ)
 ENV['CARGO_NET_OFFLINE'] = 'true'
 ENV.pop('RUSTUP_TOOLCHAIN', None)
+# the front end of Verus (rustc) overflows its default stack on the largest generated unit (switch, ~2900 lines)
+ENV.setdefault('RUST_MIN_STACK', str(256 * 1024 * 1024))
 
 
 def log(*a):
